@@ -624,7 +624,7 @@ def check_property(prop, tier):
     if not hs:
         print("no harness serves %s" % prop)
         return 2
-    kf = [k for k in known_findings() if k.get("property") == prop]
+    kf = [k for k in known_findings() if prop in k.get("property", "").split(",")]
     results = []
     workers = min(int(os.environ.get("VERIF_JOBS", "14")), len(hs))
     with cf.ThreadPoolExecutor(max_workers=workers) as ex:
